@@ -160,3 +160,31 @@ contract(DEP + 'Target.send_dep_res_recv_dep_req', 'C04',
              havoc={'res': '(dep_res, None, ATN(self.did, self.nad))[nondet_int(0, 2)]',
                     'self._g_repeat': Bool(), 'self._g_nak': Bool(), 'self._g_atn': Bool(),
                     'dep_req': Const(None)})})
+
+# "any single lost or corrupted frame per protocol step is recovered transparently", one instance decided on the
+# Initiator's transport step: the first response is corrupted (TransmissionError from the frame exchange); the
+# Initiator must then send a NAK (call-site obligation), to which a conforming Target retransmits its last response
+# - whatever kind that was: an information PDU or, while the Initiator is chaining, an ACK - and that response is
+# the result.  Only the deadline may still end the step.
+contract(DEP + 'Initiator.send_req_recv_res', 'C04', dict(self=Any(), req=Any(), timeout=Any()),
+         name='C04/frame-exchange.first-response-corrupted', assumed=True,
+         note='fault script: exchange 1 fails with TransmissionError, every later exchange returns the response the '
+              'Target retransmits for a NAK (its last response: INF, INF+MI or ACK)',
+         requires=[('nak-after-corruption', 'self._g_n == 0 or req.pfb.fmt == 5')],
+         modifies={'self._g_n': Int(0, None)},
+         ensures=[('count', 'self._g_n == old(self._g_n) + 1'), ('later', 'old(self._g_n) >= 1')],
+         raises={'nfc.clf:TransmissionError': ['old(self._g_n) == 0', 'self._g_n == 1']},
+         returns='self._g_last')
+contract(DEP + 'Initiator.send_dep_req_recv_dep_res', 'C04',
+         dict(self=Obj(DEP + 'Initiator', miu=Int(1, 251), pni=Int(0, 3), did=Opt(Int(1, 14)), nad=None, _g_n=0,
+                       _g_last=Obj(DEP + 'DEP_RES', _partial=False,
+                                   pfb=Obj(DEP + 'DEP_RES.PFB', _partial=False, fmt=OneOf(0, 1, 4), nad=False,
+                                           did=Bool(), pni=Int(0, 3)),
+                                   did=Opt(Int(1, 14)), nad=None, data=Bytes(0, 251, mutable=True))),
+              req=REQ(), rwt=Const(0.1), timeout=Const(1.0)),
+         name='C04/Initiator.recovers-corrupted-response', use=['C04/frame-exchange.first-response-corrupted'],
+         # a conforming Target answers a chained information PDU with an ACK and everything else with information
+         requires=['(self._g_last.pfb.fmt == 4) == (req.pfb.fmt == 1)', 'req.pfb.fmt != 5 and req.pfb.fmt != 8'],
+         ensures=[('O-recover.result', 'result is self._g_last')],
+         raises={'nfc.clf:TimeoutError': []},
+         loops={(TQ, 'While', 0): LoopSpec(invariant=['True'], havoc={'timeout': Any()})})
